@@ -158,6 +158,32 @@ def random_matching(draw):
     return {"pairs": pairs, "reverse": rev, "cuts": sorted(set(cuts)), "unpaired_every": draw(st.sampled_from([0, 0, 2, 5]))}
 
 
+@st.composite
+def scale_matching(draw):
+    """matchings beyond what a byte or a 16-bit integer holds: runs of 256-700 equal operations (matches, or one gap of
+    256-400 skipped labels on either map) and label numbers around 32768 / 65536; few draws, so the cases stay cheap"""
+    rev = draw(st.booleans())
+    r0 = draw(st.sampled_from([1, 1, 40, 32700, 32767, 40000, 65500, 70000]))
+    q0 = draw(st.sampled_from([1, 1, 7, 32760, 65530]))
+    runs = draw(st.lists(st.sampled_from([1, 2, 5, 255, 256, 257, 300, 511, 512, 700]), min_size=1, max_size=3))
+    gaps = draw(st.lists(st.sampled_from([(1, 1), (2, 1), (1, 2), (3, 2), (256, 1), (1, 256), (300, 257), (1, 400)]),
+                         min_size=len(runs) - 1, max_size=len(runs) - 1))
+    steps = []
+    for k, n in enumerate(runs):
+        steps += [(1, 1)] * (n - 1)
+        if k < len(gaps):
+            steps.append(gaps[k])
+    qspan = sum(b for _, b in steps)
+    r, q = r0, q0 + (qspan if rev else 0)
+    pairs = [[r, q]]
+    for dr, dq in steps:
+        r += dr
+        q += -dq if rev else dq
+        pairs.append([r, q])
+    cuts = draw(st.lists(st.integers(1, max(1, len(pairs) - 1)), max_size=2))
+    return {"pairs": pairs, "reverse": rev, "cuts": sorted(set(cuts)), "unpaired_every": draw(st.sampled_from([0, 0, 7]))}
+
+
 def check_pipeline(case):
     from vlib import pipeline
     run = pipeline.run_case(case)
@@ -194,6 +220,8 @@ def subchecks(tier):
             describe=f"all valid matchings on a {8 if q else 10}x{8 if q else 10} grid, both orientations", time_budget_s=3000),
         Sub("random-matchings", "hyp", check_unit, strategy=random_matching, examples=10000 if q else 200000, shrink_budget=800,
             required_classes=("I-and-D-in-one-gap", "pairs=1")),
+        Sub("scale-matchings", "hyp", check_unit, strategy=scale_matching, examples=600 if q else 20000, shrink_budget=200,
+            describe="runs of 256-700 equal operations, gaps of 256-400 labels, label numbers around 2^15 and 2^16"),
         Sub("join-unit", "hyp", check_join_unit, strategy=join_unit.join_case, examples=6000 if q else 150000, shrink_budget=400,
             describe="rows out of AlignmentResults.resolve (unit-level join)"),
         Sub("pipeline", "hyp", check_pipeline, strategy=lambda: gen_maps.pipeline_case(), examples=320 if q else 8000,
